@@ -80,7 +80,7 @@ def handbuilt_case(ctx, r):
     kind, n, ev, ik = r["kind"], r["n"], r["events"], r["index"]
     index = make_index(ik, n)
     p = r.get("p", 1)
-    columns = pd.Index([f"c{j}" for j in range(p)]) if r.get("columns") == "strings" else pd.RangeIndex(p)
+    columns = pd.Index(["zeta", "alpha", "mid", "b2", "a1", "q"][:p]) if r.get("columns") == "strings" else pd.RangeIndex(p)
     ctx.case()
     ctx.stat("handbuilt_outputs")
     ctx.stat(f"handbuilt[{kind}]")
